@@ -76,7 +76,8 @@ def st_signcert(ex, st, a, ins):
     cert = ex.load(st, a[0]); CT = ex.ir.typeid('golang.org/x/crypto/ssh.Certificate')
     ex.forceall(st, cert)
     d = {f['name']: cert[i] for i, f in enumerate(ex.ir.fields(CT))}
-    st.ev('sign', kind='ssh', cert=d, signer=a[2])
+    e = st.ev('sign', kind='ssh', cert=d, signer=a[2])
+    if getattr(ex, 'on_sign', None): ex.on_sign(ex, st, e)
     return fork_results(ex, st, ins, [(None, lambda s: mk_error(s, z3.StringVal('sign'), 'SignCert')), (None, nilerr())])
 
 
@@ -88,7 +89,8 @@ def st_create_certificate(ex, st, a, ins):
             d[f['name']] = ex.field(st, tmpl, i)
     st.counter += 1
     der = z3.String(f'der!{st.counter}')
-    st.ev('sign', kind='x509', template=d, parent=a[2], pub=a[3], priv=a[4], der=der)
+    e = st.ev('sign', kind='x509', template=d, parent=a[2], pub=a[3], priv=a[4], der=der)
+    if getattr(ex, 'on_sign', None): ex.on_sign(ex, st, e)
     return fork_results(ex, st, ins, [(None, lambda s: (NILSLICE(), mk_error(s, z3.StringVal('sign'), 'CreateCertificate'))), (None, (BytesV(der), nilerr()))])
 
 
